@@ -4,6 +4,10 @@ from .. import sim as S
 
 ENGINE_ID = 8
 N = {"quick": 96, "thorough": 1500}
+RULE = ("real wishbone.Arbiter with 1-5 initiators (thorough -8), random feature subsets and granularities on both sides: "
+        "random, sticky-request and exhaustive (every (cyc,stb,lock)^n from every grant, n <= 2, thorough 3) streams, plus "
+        "many (6-20 initiators, not powers of two, several requesting in the same cycle) and contention (everybody requests "
+        "continuously, owners release in turn) streams; non-trivial = at least 2 initiators and ownership changed at least twice")
 FE = ["err", "rty", "stall", "lock", "cti", "bte"]
 GR = (8, 16, 32, 64)
 
